@@ -1,7 +1,7 @@
 """C43 MJX reproduces the MuJoCo C engine.
 
 Differential check: for every model of a finite MJX-supported alphabet (kinematic forests x joint menu x feature
-bundles x option lattice) and every element of a state/ctrl lattice, the TREE's MJX (jax, float64, one jit(vmap) call
+bundles incl. a medium lattice {density, viscosity, wind} for the fluid forces x option lattice) and every element of a state/ctrl lattice, the TREE's MJX (jax, float64, one jit(vmap) call
 per model) is compared stage by stage with the TREE-built C library on the same MJCF text.
 """
 from __future__ import annotations
@@ -21,7 +21,8 @@ META = dict(
     technique="bounded exhaustive enumeration of an MJX-supported model alphabet x option lattice x state/ctrl lattice; "
               "differential oracle: the tree-built C engine (ctypes) on the same MJCF",
     text="Every model of the alphabet (all joint types as root/child/sibling, smooth bundle = armature/damping/springs/"
-         "gravcomp/fixed+spatial tendons/actuator menu/sensor menu, constraint bundle = frictionloss/limits/equalities, "
+         "gravcomp/fixed+spatial tendons/actuator menu/sensor menu, medium bundle = {density, viscosity, wind} lattice of the "
+         "inertia-box fluid model over forests with rotated inertial frames, constraint bundle = frictionloss/limits/equalities, "
          "contact scenes for every primitive pair of MJX's collision table) is put through the tree's MJX and through "
          "the tree-built C library; kinematics, inertia, bias/passive/actuator forces, contacts (matched by geom pair), "
          "constraint rows (matched as multisets per type), sensors, accelerations and the next state of step() are "
@@ -695,7 +696,11 @@ def run(ctx):
     ctx.extra["violation_keys"] = sorted(k for k, _, _ in ctx.violations)
     ctx.extra["known_finding_keys"] = sorted(k for k, _ in ctx.known_hits)
     ctx.extra["models"] = len(items)
-    ctx.rule = ("models: %d = {smooth, constrained} bundles over %s kinematic forests x joint menu, flag lattice, contact scenes "
+    ctx.extra["medium_models"] = sum(1 for it in items if it["name"].startswith("medium["))
+    ctx.rule = ("models: %d = {smooth, constrained} bundles over %s kinematic forests x joint menu, flag lattice, medium lattice "
+                "(inertia-box fluid forces: {density+viscosity+wind, density+viscosity, density+wind, viscosity+wind, wind-only} x "
+                "{free-hinge chain, ball|slide-hinge forest, hinge-ball chain} x {Euler, RK4}, + one implicitfast model (documented NotImplementedError: counted as rejected); "
+                "quick: the covering pair {wind, still} x {Euler, RK4} x {free root, ball root}), contact scenes "
                 "for every primitive pair; options rotate over integrator{Euler,RK4,implicitfast} x solver{Newton,CG} x "
                 "cone{pyramidal,elliptic} x jacobian{dense,sparse}; per model <=%d lattice states (qpos lattice x {0,mixed} qvel "
                 "x ctrl{-1,0,.6,2} x act x applied forces x eq_active/mocap toggles), all evaluated by one jit(vmap). "
